@@ -107,7 +107,7 @@ func HarnessC12Unpack() {
 			if e.Name == "" {
 				continue
 			}
-			st := refPush(refPush(nil, unpackDst), e.Name)
+			st := refPush(refPush(nil, unpackDstReal), e.Name)
 			where := refJoinAbs(st) // the cleaned path below dst
 			kind := envLstatKind(where)
 			// final: no later entry names this path, an ancestor or a descendant of it, so what is
@@ -117,7 +117,7 @@ func HarnessC12Unpack() {
 				if l.Name == "" {
 					continue
 				}
-				ls := refPush(refPush(nil, unpackDst), l.Name)
+				ls := refPush(refPush(nil, unpackDstReal), l.Name)
 				if refHasPrefix(ls, st) || refHasPrefix(st, ls) {
 					final = false
 				}
@@ -145,7 +145,7 @@ func c12AllThere(entries []envTarEntry) bool {
 		if e.Name == "" {
 			continue
 		}
-		if envLstatKind(refJoinAbs(refPush(refPush(nil, unpackDst), e.Name))) == -1 {
+		if envLstatKind(refJoinAbs(refPush(refPush(nil, unpackDstReal), e.Name))) == -1 {
 			return false
 		}
 	}
